@@ -862,6 +862,24 @@ fn c12_oracle(case: &str, k: usize, op: &Op, outcome: &Outcome, before: &OForest
     if merge && after.any_adjacent_text_under(clone) {
         out.fail(case, "clone-has-adjacent-text", &format!("step {}: the clone has adjacent text nodes although consolidation is on", k));
     }
+    // clone_with_prefixes: what it adds to the clone's top are bindings IN SCOPE at the source (nearest declaration wins) —
+    // never a binding that a closer ancestor has re-declared or undeclared
+    if with_prefixes {
+        let mut outer: Vec<(usize, usize)> = vec![];
+        let mut cur = before.nodes[&src].parent;
+        while let Some(a) = cur {
+            for kk in &before.nodes[&a].kids {
+                if let OVal::Ns(p, n) = before.nodes[kk].val { if !outer.iter().any(|(q, _)| *q == p) { outer.push((p, n)); } }
+            }
+            cur = before.nodes[&a].parent;
+        }
+        let added: Vec<(usize, usize)> = after.nodes[&clone].kids.iter().filter_map(|kk| if let OVal::Ns(p, n) = after.nodes[kk].val { Some((p, n)) } else { None }).skip(own_ns).collect();
+        for (p, n) in added {
+            if !outer.contains(&(p, n)) {
+                out.fail(case, "clone-declares-binding-not-in-scope", &format!("step {}: `{}`: the clone declares prefix {} for namespace {}, which is not the binding of that prefix in scope at the source ({:?})", k, op_str(op), p, n, outer.iter().find(|(q, _)| *q == p)));
+            }
+        }
+    }
     // clone_with_prefixes: serialises on its own whenever the source serialised in place
     if with_prefixes && in_place {
         stats.bump("c12.source_serialised_in_place");
